@@ -10,5 +10,13 @@ theorem fact_in_generations_copies_first : Generated.inGenerationsCopiesFirst = 
 theorem fact_rename_demes_copies_first : Generated.renameDemesCopiesFirst = true := by decide
 /-- `Builder.resolve` is `Graph.fromdict(self.data)` -/
 theorem fact_builder_resolve_passes_data : Generated.builderResolvePassesData = true := by decide
+/-- the copy `Graph.fromdict` starts with is `deepcopy_unaliased(data)` (not the memoising
+`copy.deepcopy`): `Heap.copy`, not `Heap.copyMemo` -/
+theorem fact_fromdict_copy_is_unaliased : Generated.fromdictCopyIsUnaliased = true := by decide
+/-- `deepcopy_unaliased` has the modelled shape: a new dict per mapping, a new list per list,
+`copy.deepcopy` for leaves -/
+theorem fact_deepcopy_unaliased_shape : Generated.deepcopyUnaliasedShape = true := by decide
+/-- `Builder.resolve` consists of `return Graph.fromdict(self.data)` and nothing else -/
+theorem fact_builder_resolve_only_passes_data : Generated.builderResolveOnlyPassesData = true := by decide
 
 end Demes.Tables
